@@ -522,6 +522,11 @@ structure DriverState where
   bst : Option B.BState := none
   st : Option State := none
   broken : Bool := false     -- after an illegal oracle / event the rest of the case is skipped
+  /-- the keys an OPEN multi-key iterator has not yet been asked for (`iteropen` / `iternext`): an iterator that is not
+      drained at once is, call by call, `if keys.is_empty() || is_shutting_down() { end } else { Some(get(key)) }` — each
+      `next()` is the model's `get` of the head key (`Ev.get`; `client_mget` in `LayerB/Refine.lean` is the same statement
+      for the drained iterator). The list is the caller's own state, not the cache's: it lives here, not in `State`. -/
+  iter : List Nat := []
 
 /-- Processes one input line; returns the new driver state and the line to print (if any). -/
 def driveLine (d : DriverState) (line : String) : DriverState × Option String :=
@@ -579,6 +584,31 @@ def driveLine (d : DriverState) (line : String) : DriverState × Option String :
     (match d.st with
      | some s => (d, some s!"R {if s.worker != .dead && s.queue.isEmpty then "blocked" else "moved"} | {s.snap}")
      | none => (d, some "R bad-event"))
+  | "E" :: "iteropen" :: ks :: _ =>
+    if d.broken then (d, some "R skipped")
+    else (match d.st, (if ks == "-" then some [] else parseNatList? ks) with
+      | some s, some l => ({ d with iter := l }, some s!"R none | {s.snap}")
+      | _, _ => ({ d with broken := true }, some "R bad-event"))
+  | "E" :: "iternext" :: k :: otoks0 =>
+    let otoks := otoks0.filter (fun t => !t.startsWith "#")
+    if d.broken then (d, some "R skipped")
+    else (match d.st with
+      | none => ({ d with broken := true }, some "R bad-event")
+      | some s =>
+        match d.iter with
+        | [] => if k == "-" then (d, some s!"R iter end | {s.snap}") else ({ d with broken := true }, some "R illegal: the iterator is exhausted")
+        | h :: rest =>
+          if k != toString h then ({ d with broken := true }, some s!"R illegal: the iterator stands at key {h}")
+          else if s.shutting then (d, some s!"R iter end | {s.snap}")      -- `next()` answers `None` and keeps its keys
+          else match parseOracle otoks with
+            | none => ({ d with broken := true }, some "R bad-oracle")
+            | some o =>
+              match step s (.get h) o with
+              | .ok (s', .value v, o') =>
+                if o'.isEmpty then ({ d with st := some s', iter := rest }, some s!"R iter {optNatStr v} | {s'.snap}")
+                else ({ d with broken := true }, some "R illegal: oracle values left unconsumed")
+              | .ok _ => ({ d with broken := true }, some "R illegal: a get answered something else than a value")
+              | .error m => ({ d with broken := true }, some s!"R illegal: {m}"))
   | "E" :: rest0 =>
     let rest := rest0.filter (fun t => !t.startsWith "#")
     if d.broken then (d, some "R skipped")
